@@ -336,7 +336,7 @@ impl World {
 
     fn variants(&self, a: &Act) -> usize {
         match a.op.as_str() {
-            "remove_user" | "verify" | "create_session" | "invalidate_user_session" if a.u == 0 => self.unknown_uids().len(),
+            "remove_user" | "verify" | "exists" | "create_session" | "invalidate_user_session" if a.u == 0 => self.unknown_uids().len(),
             "refresh_session" | "invalidate_session" | "get_uid_by_token" if a.tok == 0 => self.unknown_toks(false).len(),
             "auth_route" => match a.ck.as_str() {
                 "none" => 2,
@@ -381,6 +381,7 @@ impl World {
                     Err(e) => (Self::err(e), None, None),
                 },
                 "verify" => (if st.auth_provider().verify(&uid, &pw) { "true" } else { "false" }.into(), None, None),
+                "exists" => (if st.auth_provider().exists(&uid) { "true" } else { "false" }.into(), None, None),
                 "create_session" => {
                     let r = match life.as_str() {
                         "default" => st.auth_provider().create_session(&uid),
@@ -439,7 +440,7 @@ impl World {
             }
         }));
         match a.op.as_str() {
-            "remove_user" | "verify" | "create_session" | "invalidate_user_session" => concrete = format!("uid={:?}", uid),
+            "remove_user" | "verify" | "exists" | "create_session" | "invalidate_user_session" => concrete = format!("uid={:?}", uid),
             "refresh_session" | "invalidate_session" | "get_uid_by_token" | "auth_route" => concrete = format!("token={:?} variant={}", tok, variant),
             _ => {}
         }
@@ -537,6 +538,14 @@ fn diff_state(w: &World, t: &SpecState) -> Option<String> {
         return Some(format!("handed out {} uids / {} tokens, spec {} / {}", w.uids.len(), w.toks.len(), t.nu, t.nt));
     }
     None
+}
+
+/// an edge counts as non-trivial when it changes the observable state or gives a positive answer
+/// (verify/exists true, 200, Ok(uid), refresh Ok); the unit-returning calls on dead arguments do not count
+fn nontrivial(e: &Edge, si: usize) -> bool {
+    e.t != si
+        || matches!(e.exp.res.as_str(), "true" | "200")
+        || (e.exp.res == "ok" && matches!(e.a.op.as_str(), "get_uid_by_token" | "refresh_session"))
 }
 
 /// an operation in the log format of `trace` (result fields are filled in when it is executed)
@@ -668,7 +677,7 @@ fn graph(args: &[String]) {
                 }
             }
             edges_run += 1;
-            if e.t != si || matches!(e.exp.res.as_str(), "ok" | "true" | "200") { edges_nontrivial += 1; }
+            if nontrivial(e, si) { edges_nontrivial += 1; }
             *classes.entry(format!("{}:{}", e.a.op, e.exp.res)).or_insert(0) += 1;
             bad_format += w.bad_format.len() as u64;
             w.bad_format.clear();
@@ -715,7 +724,7 @@ fn graph(args: &[String]) {
                     let (got, concrete) = w.apply(&e.a, 0);
                     let d = if got != e.exp { Some(format!("returned {:?}, spec expects {:?}", got, e.exp)) } else { diff_state(&w, &states[e.t]) };
                     run += 1;
-                    if e.t != si || matches!(e.exp.res.as_str(), "ok" | "true" | "200") { nt += 1; }
+                    if nontrivial(e, si) { nt += 1; }
                     *cl.entry(format!("{}:{}", e.a.op, e.exp.res)).or_insert(0) += 1;
                     if let Some(d) = d {
                         nm += 1;
@@ -840,7 +849,10 @@ fn one_trace(seed: u64, idx: usize, maxlen: usize, lives: Lives) -> (Vec<String>
         } else if r < 9 {
             a.op = "remove_user".into();
             a.u = pick_u(&mut rng);
-        } else if r < 15 {
+        } else if r < 11 {
+            a.op = "exists".into();
+            a.u = pick_u(&mut rng);
+        } else if r < 16 {
             a.op = "verify".into();
             a.u = pick_u(&mut rng);
             // right / wrong / another user's password
